@@ -208,12 +208,18 @@ def c08(chk, thorough):
 def c10(chk, thorough):
     from . import guards
     chk.explanation = (
-        'Decides the guard, missing-value, dispatch and delegation clauses of C10: (a) every division by a column-scaling cell '
-        'is in the false arm of ApproxEq(cell, 0) whose true arm stores exactly 0 (columns without spread become 0, not NaN/Inf); '
-        '(b) in MatrixColAverage/SDEV/RMS/Var/ColumnMinMax every element read and counter increment is control-dependent on '
-        '"not MISSING"; (E6b) MatrixPreprocess has a distinct explicit arm for options 1..5, a >= 0 gate for centring, and '
-        'TensorPreprocess delegates block by block with the same option. NOT decided: zero means, unit spread, the value each '
-        'option promises, round-trip equality, the fit/apply tolerance mismatch (outside the quantifier).')
+        'Decides the guard, missing-value, statistic, dispatch, fit/apply and delegation clauses of C10: (a) every division by a '
+        'column-scaling cell is in the false arm of ApproxEq(cell, 0) whose true arm stores exactly 0 (columns without spread become 0, '
+        'not NaN/Inf), spread statistics sum squared CENTRED terms (a constant column gives exactly 0); (b) MatrixColAverage/Var/SDEV/RMS '
+        'are abstracted to closed forms over the sums of the non-missing cells of a column and equal their definitions in exact '
+        'arithmetic (RF.column-statistic), every accumulation under "cell not MISSING" over all rows and columns; MatrixColumnMinMax '
+        'reads are guarded likewise; (c) MatrixPreprocess has a distinct explicit arm per option, each arm stores the statistic '
+        'promised for that option (1 SD, 2 RMS, 3 sqrt SD, 4 max-min, 5 average) of the input and the centring subtracts '
+        'MatrixColAverage of the same matrix (G.option-statistic); (d) the apply branch performs each centre/scale/zero store under '
+        'the same guards and tolerances as the fit branch, and every other re-application of stored scalings uses the fit tolerance '
+        '(FA.agree, FA.tolerance); (e) TensorPreprocess delegates block by block with the same option. Together these give, in exact '
+        'arithmetic, zero column means, the promised column statistic and fit/apply agreement. NOT decided: floating-point rounding of '
+        'the transformed values.')
     chk.assumptions = ['ApproxEq is recognised structurally as ((v-e) < x) && (x < (v+e)); MISSING is the literal defined in numeric.h']
     prog = load_program(chk, ['preprocessing.c', 'matrix.c', 'pca.c', 'cpca.c', 'clustering.c', 'vector.c'])
     n = guards.zero_divisor(chk, prog, {'preprocessing.c', 'pca.c', 'cpca.c', 'clustering.c'})
@@ -223,6 +229,12 @@ def c10(chk, thorough):
     guards.preprocess_options(chk, prog)
     guards.centered_spread(chk, prog, ['MatrixColSDEV', 'MatrixColVar'])
     guards.fit_apply_agreement(chk, prog)
+    guards.option_statistics(chk, prog)
+    from . import reduce
+    reduce.run_columns(chk, prog)
+    chk.floor('G.option-statistic', 6)
+    chk.floor('RF.column-statistic', 4)
+    chk.floor('RF.column-guard', 20)
     chk.floor('G.centered-spread', 2)
     chk.floor('G.missing', 5)
     chk.floor('G.options', 7)
